@@ -370,21 +370,22 @@ func (st *Runtime) executeYieldBlock(block *BlockNode, blockParam, yieldParam *B
 		st.content = func(st *Runtime, expression Expression) {
 			outscope := st.scope
 			outcontent := st.content
+			// (deferred: when the content fails, the lists of the block body it was yielded from release their
+			// scopes on the way out, and they must find the scope chain they opened them on)
+			defer func() {
+				st.scope = outscope
+				st.content = outcontent
+			}()
 
 			st.scope = myscope
 			st.content = mycontent
 
 			if expression != nil {
 				context := st.context
+				defer func() { st.context = context }()
 				st.context = st.evalPrimaryExpressionGroup(expression)
-				st.executeList(content)
-				st.context = context
-			} else {
-				st.executeList(content)
 			}
-
-			st.scope = outscope
-			st.content = outcontent
+			st.executeList(content)
 		}
 	}
 
